@@ -107,6 +107,34 @@ Definition reader_tick (g : geom) (pend chunk : list Z) (stamp : Z) : tick_res :
         let dropFromStart := q * 4 in
         if q =? 0 then {| t_pend := b; t_rels := []; t_out := TPanic PFirstWordZero |}
         else
+          (* after the fix: a frame start more than one frame into the read is a drop like any other; when not
+             one whole frame lies behind it yet, the read stays in the card (nothing released, nothing sent) *)
+          let dropFromEnd := fs - dropFromStart mod fs in
+          if zlen b - dropFromStart - dropFromEnd <? fs
+          then {| t_pend := b; t_rels := []; t_out := TSmall |}
+          else
+            let pend1 := zskipn dropFromStart b in               (* ReleaseBytes(dropFromStart) *)
+            let b' := zslice b dropFromStart (zlen b - dropFromEnd - dropFromStart) in
+            tick_demux g b' pend1 [dropFromStart] stamp true
+      else tick_demux g b b [] stamp false.
+
+(* the tick before that fix: panic("expect dropFromEnd>0") when the frame start found lies beyond one frame *)
+Definition reader_tick_old (g : geom) (pend chunk : list Z) (stamp : Z) : tick_res :=
+  let b := pend ++ chunk in                                   (* AvailableBuffer() *)
+  let fs := fsize g in
+  if zlen b <? 3 * fs then {| t_pend := b; t_rels := []; t_out := TSmall |}
+  else
+    let '(q, p, n, ok) := find_frame_bits b in
+    if n =? 0 then {| t_pend := b; t_rels := []; t_out := TPanic PDivZero |}
+    else
+      let nr := Z.quot (p - q) n in
+      if negb (n =? ncols g) || negb (nr =? nrows g) || negb ok
+      then {| t_pend := []; t_rels := [zlen b]; t_out := TGeom |}          (* ReleaseBytes(len(b)) *)
+      else if negb (q =? nwords g) then
+        (* data drop detected: align to the next frame start *)
+        let dropFromStart := q * 4 in
+        if q =? 0 then {| t_pend := b; t_rels := []; t_out := TPanic PFirstWordZero |}
+        else
           let pend1 := zskipn dropFromStart b in                 (* ReleaseBytes(dropFromStart) *)
           let dropFromEnd := fs - dropFromStart in
           if dropFromEnd <=? 0
